@@ -180,6 +180,11 @@ class Step:
             for v in node['vars']:
                 if v.get('init') is None:
                     raise Unsupported('uninitialised local %s' % v['name'])
+                from .tree import const_value
+                cv = const_value(v['init'])
+                if isinstance(cv, (int, float)) and not isinstance(cv, bool) and (v.get('t') or {}).get('c') in ('int', 'fp'):
+                    env[v['name']] = cv             # an initialiser the compiler folded (a trait constant, a constexpr)
+                    continue
                 t = self.unwrap(sx(v['init']))
                 if (v.get('t') or {}).get('ref'):
                     try:
